@@ -38,6 +38,15 @@ func c18Run(r *runCtx, id string, f []string) {
 		if strings.HasPrefix(p, "r:") {
 			tpats = append(tpats, p[2:])
 			abspats = append(abspats, filepath.Join(root, p[2:]))
+		} else if strings.HasPrefix(p, "u:") {
+			// the same absolute path spelt uncanonically (doubled slash)
+			tpats = append(tpats, root+"//"+p[2:])
+			abspats = append(abspats, filepath.Join(root, p[2:]))
+		} else if strings.HasPrefix(p, "v:") {
+			// ... or through a `dir/..` detour
+			first := strings.SplitN(p[2:], "/", 2)[0]
+			tpats = append(tpats, root+"/"+first+"/../"+p[2:])
+			abspats = append(abspats, filepath.Join(root, p[2:]))
 		} else {
 			tpats = append(tpats, filepath.Join(root, p))
 			abspats = append(abspats, filepath.Join(root, p))
@@ -184,7 +193,7 @@ func c18Run(r *runCtx, id string, f []string) {
 func init() {
 	props["C18"] = &propImpl{
 		gen: func(g *genCtx) {
-			patSets := [][]string{{"d1/*.log"}, {"d1/*", "d1/a.log"}, {"d?/a.log", "r:d1/*.log"}, {"d1/*.log", "d1/a*", "r:d2/*"}, {"d*/*"}, {"r:d1/a.log"}}
+			patSets := [][]string{{"d1/*.log"}, {"d1/*", "d1/a.log"}, {"d?/a.log", "r:d1/*.log"}, {"d1/*.log", "d1/a*", "r:d2/*"}, {"d*/*"}, {"r:d1/a.log"}, {"u:d1/a.log", "d1/*.log"}, {"d1/a*", "v:d1/a.log", "r:d1/./a.log"}}
 			ignores := []string{"-", "s:.gz", "s:b.log", "p:a", "c:d1", "c:verif"}
 			paths := []string{"d1/a.log", "d1/b.log", "d1/c.txt", "d1/x.gz", "d2/a.log", "d1/sub"}
 			base := []string{"md:d1", "md:d2"}
